@@ -2,7 +2,7 @@
    statement that every diagnostic carries the end offset of the offending token is part of the
    parser theorems, see DESIGN.md section 6 C08). *)
 From Coq Require Import Sorted.
-From BCL Require Import Model.Api Proofs.LineCalcProofs Proofs.LexerProofs.
+From BCL Require Import Model.Api Proofs.LineCalcProofs Proofs.LexerProofs Proofs.ParserInvProofs.
 Open Scope N_scope.
 
 (* lineColAt, with its three-way case split around sort.SearchInts, computes: line = 1 + number of
@@ -43,6 +43,20 @@ Theorem C08_independent_of_lookahead : forall l later pos,
   sorted (l ++ later) -> (forall x, In x later -> pos <= x) -> line_col_at (l ++ later) pos = line_col_at l pos.
 Proof. exact line_col_ignores_later. Qed.
 Print Assumptions C08_independent_of_lookahead.
+
+(* every token's position lies within the bytes received so far, and its text fits before it (pos = end offset) *)
+Theorem C08_token_positions : forall cs, exists k,
+  snd (lex cs) = newlines_at (concat (firstn k cs)) 0 /\
+  forall t, In t (fst (lex cs)) ->
+    tpos t <= nlen (concat (firstn k cs)) /\ nlen (tval t) <= tpos t.
+Proof. first [exact ParserInvProofs.token_pos_bound_prefix | apply ParserInvProofs.token_pos_bound_prefix]. Qed.
+Print Assumptions C08_token_positions.
+
+(* every compile diagnostic carries the position of a token of the input *)
+Theorem C08_diag_at_token : forall ts d, In d (log (parse_tokens ts)) ->
+  d_pos d = 0 \/ exists t, In t ts /\ d_pos d = tpos t.
+Proof. first [exact ParserInvProofs.diag_pos_is_token_pos | apply ParserInvProofs.diag_pos_is_token_pos]. Qed.
+Print Assumptions C08_diag_at_token.
 
 (* non-vacuity *)
 Example C08_example :
